@@ -165,7 +165,7 @@ def oracle(case, trace, ix, res, prefix='C04', focus=None):
                  (trace.outcome.get('etype'), trace.outcome.get('msg')), context(ix))
 
 
-def evaluate(case):
+def evaluate_one(case):
     res = Result()
     trace, ix = run_case(case, run_on=False)
     shape_labels(case, trace, res)
@@ -175,3 +175,7 @@ def evaluate(case):
     res.sample = dict(outcome=trace.outcome,
                       verdicts={sp['id']: ix.verdict(sp['id'])['kind'] for sp in ix.scheds()})
     return res
+
+
+from ._rt import with_variants                     # noqa: E402
+evaluate = with_variants(evaluate_one)
